@@ -183,3 +183,13 @@ Theorem C16_diff_old_sound : forall H (acts : list action) (ls th lh : list hash
   (lh = snd (build_diff_proof H acts ls) /\ th = fst (build_diff_proof H acts ls)) \/ RgSound.NodeCollision H.
 Proof. exact diff_old_sound. Qed.
 Print Assumptions C16_diff_old_sound.
+
+(* second half, reduced to the builder's side: the new root VerifyDiffProof accepts is determined by the actions, the old
+   list and the appended roots (it is the root the verifier derives from BuildDiffProof's own output), or a collision is
+   exhibited. That this root is the plain root of the list after the actions is tied by correspondence. *)
+Theorem C16_diff_new_root_determined : forall H (acts : list action) (ls th lh : list hash) (newRoot : hash) (ar : list hash),
+  (N.of_nat (length ls) < 2 ^ 64)%N ->
+  verify_diff_proof H acts (N.of_nat (length ls)) th lh (mroot H ls) newRoot ar = Some true ->
+  diff_new_root H acts ls ar = Some newRoot \/ RgSound.NodeCollision H.
+Proof. exact diff_new_determined. Qed.
+Print Assumptions C16_diff_new_root_determined.
